@@ -9,7 +9,6 @@ import (
 	"slices"
 	"strings"
 
-	"github.com/grpc-ecosystem/grpc-gateway/v2/utilities"
 	"github.com/renbou/grpcbridge/internal/gwquery"
 	"github.com/renbou/grpcbridge/internal/httperr"
 	"google.golang.org/grpc/codes"
@@ -188,7 +187,7 @@ func newRequestTranscoder(bt *boundTranscoder, marshaler Marshaler) HTTPRequestT
 type standardRequestTranscoder struct {
 	*boundTranscoder
 	marshaler   Marshaler
-	queryFilter *utilities.DoubleArray
+	queryFilter gwquery.FieldPathFilter
 }
 
 // Transcode transcodes a new request according to the rules specified in http.proto,
@@ -244,7 +243,7 @@ func (t *standardRequestTranscoder) shouldParseQuery() bool {
 	return t.req.Binding.RequestBodyPath != wildcardFieldPath
 }
 
-func (t *standardRequestTranscoder) queryParamFilter() *utilities.DoubleArray {
+func (t *standardRequestTranscoder) queryParamFilter() gwquery.FieldPathFilter {
 	if t.queryFilter != nil {
 		return t.queryFilter
 	}
@@ -263,7 +262,7 @@ func (t *standardRequestTranscoder) queryParamFilter() *utilities.DoubleArray {
 		seqs = append(seqs, strings.Split(k, fieldPathSep))
 	}
 
-	t.queryFilter = utilities.NewDoubleArray(seqs)
+	t.queryFilter = seqs
 
 	return t.queryFilter
 }
